@@ -33,13 +33,12 @@ class Channel {
     Channel (Scheduler &sch) : sch_(sch) { }
 
     bool operator >> (T &out) {
-        if (queue_.empty()) {   //! 如果队列里没有，则等待
+        while (queue_.empty()) {   //! 如果队列里没有，则等待
+            //! 每次进入等待前都要重新登记：被唤醒后数据可能已被别的协程取走
             token_.push(sch_.getToken());
-            do {
-                sch_.wait();
-                if (sch_.isCanceled())
-                    return false;
-            } while (queue_.empty());
+            sch_.wait();
+            if (sch_.isCanceled())
+                return false;
         }
 
         out = queue_.front();
@@ -48,12 +47,13 @@ class Channel {
     }
 
     Channel& operator << (const T &value) {
-        if (queue_.empty() && !token_.empty()) {
-            auto t = token_.front();
-            token_.pop();
-            sch_.resume(t);
-        }
         queue_.push(value);
+        //! 唤醒所有等待者，由它们自己重新检查队列；
+        //! 只在队列由空变非空时唤醒一个的话，连续写入会让后面的等待者永远得不到唤醒
+        while (!token_.empty()) {
+            sch_.resume(token_.front());
+            token_.pop();
+        }
         return *this;
     }
 
